@@ -60,14 +60,15 @@ def load_known(pid):
          fixed: property=C02 <commit> <what failed>
        Only 'open' entries suppress anything; they are matched by the spec-level hazard name."""
     res = {}
-    p = os.path.join(VERIF, "known_findings.txt")
-    if not os.path.exists(p):
-        return res
-    for ln in open(p):
-        ln = ln.strip()
-        m = re.match(r"open:\s+property=(\S+)\s+hazard=(\S+)\s+(.*)", ln)
-        if m and m.group(1) == pid:
-            res[m.group(2)] = m.group(3)
+    # VERIF_KNOWN_EXTRA: development only (a proposed known-findings file tried out before it is committed)
+    for p in (os.path.join(VERIF, "known_findings.txt"), os.environ.get("VERIF_KNOWN_EXTRA", "")):
+        if not p or not os.path.exists(p):
+            continue
+        for ln in open(p):
+            ln = ln.strip()
+            m = re.match(r"open:\s+property=(\S+)\s+hazard=(\S+)\s+(.*)", ln)
+            if m and m.group(1) == pid:
+                res[m.group(2)] = m.group(3)
     return res
 
 
